@@ -416,6 +416,92 @@ func isObjectReadBy(v ssa.Value, suffix string) bool {
 	return false
 }
 
+// objectReadBy: interprocedural form of isObjectReadBy: v is - through interface conversions, type assertions, merges,
+// parameters (every static caller) and results of module helpers (every return) - the very object returned by a call
+// whose name ends with suffix. No constructor, conversion or copy lies in between.
+func (w *World) objectReadBy(v ssa.Value, suffix string, depth int) bool {
+	if depth > 6 {
+		return false
+	}
+	cg := w.CG()
+	helperResult := func(c *ssa.Call, idx int) (bool, bool) {
+		h := c.Common().StaticCallee()
+		if h == nil || h.Blocks == nil || !w.isProdFunc(h) || isGeneratedFile(w.FileOf(h.Pos())) {
+			return false, false
+		}
+		rets := Returns(h)
+		for _, ret := range rets {
+			rv := retVals(ret)
+			if idx >= len(rv) {
+				return false, true
+			}
+			// a nil result on a failing return is not an object at all
+			if isNilConst(rv[idx]) {
+				continue
+			}
+			if !w.objectReadBy(rv[idx], suffix, depth+1) {
+				return false, true
+			}
+		}
+		return len(rets) > 0, true
+	}
+	switch x := v.(type) {
+	case *ssa.MakeInterface:
+		return w.objectReadBy(x.X, suffix, depth+1)
+	case *ssa.ChangeInterface:
+		return w.objectReadBy(x.X, suffix, depth+1)
+	case *ssa.TypeAssert:
+		return w.objectReadBy(x.X, suffix, depth+1)
+	case *ssa.Extract:
+		if ta, ok := x.Tuple.(*ssa.TypeAssert); ok && x.Index == 0 {
+			return w.objectReadBy(ta.X, suffix, depth+1)
+		}
+		if c, ok := x.Tuple.(*ssa.Call); ok {
+			if ok2, isHelper := helperResult(c, x.Index); isHelper {
+				return ok2
+			}
+		}
+		return false
+	case *ssa.Phi:
+		if len(x.Edges) == 0 {
+			return false
+		}
+		for _, e := range x.Edges {
+			if !w.objectReadBy(e, suffix, depth+1) {
+				return false
+			}
+		}
+		return true
+	case *ssa.Call:
+		if strings.HasSuffix(callName(x.Common()), suffix) {
+			return true
+		}
+		if ok2, isHelper := helperResult(x, 0); isHelper {
+			return ok2
+		}
+		return false
+	case *ssa.Parameter:
+		fn := x.Parent()
+		idx := -1
+		for i, q := range fn.Params {
+			if q == x {
+				idx = i
+			}
+		}
+		callers := cg.Callers[fn]
+		if idx < 0 || len(callers) == 0 {
+			return false
+		}
+		for _, cs := range callers {
+			if cs.Common().IsInvoke() || idx >= len(cs.Common().Args) || !w.objectReadBy(cs.Common().Args[idx], suffix, depth+1) {
+				return false
+			}
+		}
+		return true
+	}
+	return false
+}
+
 // tableFieldGlobals: v is a field of the element of a literal table (a slice or array literal of structs) that a
 // loop ranges over; it returns the names of the package-level variables stored in that field, one per row.
 func tableFieldGlobals(v ssa.Value) []string {
